@@ -222,7 +222,21 @@ func (h *handler) Handle(ctx context.Context) {
 		}
 	}
 
-	wg.Wait()
+	// The receiver may be blocked handing a message to the scheduler, whose queue nobody reads
+	// any more: keep taking messages (they are dropped) until both goroutines are gone.
+	stopped := make(chan struct{})
+	go func() {
+		wg.Wait()
+		close(stopped)
+	}()
+	for {
+		select {
+		case <-h.consumer.Messages():
+			continue
+		case <-stopped:
+		}
+		break
+	}
 }
 
 func (h *handler) send(protoMsg hwebsocket.ProtoMsg) {
